@@ -53,4 +53,14 @@ def arrowPath (base : List Comp) (p : List Char) : Option (List Comp) :=
     let real := norm [] (splitSlash p)
     if base.isPrefixOf real then some real else none
 
+/-- `S3StorageBackend._get_s3_key` (storage_backend.py): LITERAL — leading slashes stripped, the table prefix joined on. S3 keys are
+compared byte for byte by the store, so nothing is normalised: `..` is an ordinary key segment and can never climb. -/
+def s3Key (pref p : List Char) : List Char :=
+  if pref = [] then lstripSlash p else pref ++ '/' :: lstripSlash p
+
+/-- the variant the property excludes: `posixpath.normpath` over the JOINED key ("so that data//x and data/./x name the same
+object"), which collapses `..` across the prefix boundary -/
+def s3KeyNormalised (pref p : List Char) : List Char :=
+  (joinStr (norm [] (splitSlash (pref ++ '/' :: lstripSlash p)))).drop 1
+
 end DSV.Path
